@@ -348,3 +348,110 @@ theorem repair_restores_known (s : St) (hc : CacheInv hash s) (hnd : (K s.ws).No
 
 end
 end Signac.Cache
+
+namespace Signac.Cache
+open Signac Signac.Ws
+
+section
+variable {hash : JVal → String}
+
+theorem mapInv_erase_aset {m : List (String × JVal)} (h : MapInv hash m) (id : String) (v : JVal) :
+    MapInv hash (aerase id (aset id v m)) := by
+  intro i w hm
+  obtain ⟨hm1, hne⟩ := mem_aerase hm
+  rcases mem_aset hm1 with he | he
+  · simp only [Prod.mk.injEq] at he
+    exact absurd he.1 hne
+  · exact h i w he
+
+theorem mapInv_erase {m : List (String × JVal)} (h : MapInv hash m) (id : String) :
+    MapInv hash (aerase id m) := fun i w hm => h i w (mem_aerase hm).1
+
+/-- One iteration of repair keeps the cache invariant, whatever the damage: a state point read
+    without validation is either registered under its true id or dropped again. -/
+theorem cacheInv_repairOne (s : St) (id : String) (hc : CacheInv hash s) :
+    CacheInv hash (repairOne hash s id).1 := by
+  have hc0 := cacheInv_ensureRead hc
+  -- every state reached below differs from a CacheInv state only in `ws` or by sound registrations
+  have finish : ∀ (t : St) (sp : JVal), CacheInv hash t →
+      CacheInv hash (match initJob hash t sp false with
+        | (s', none) => (s', false)
+        | (s', some _) => match initJob hash s' sp true with
+          | (s'', none) => (s'', false)
+          | (s'', some _) => (s'', true)).1 := by
+    intro t sp ht
+    have h1 := cacheInv_initJob ht sp false
+    cases hr : initJob hash t sp false with
+    | mk s' e =>
+      rw [hr] at h1
+      cases e with
+      | none => exact h1
+      | some _ =>
+        have h2 := cacheInv_initJob (s := s') h1 sp true
+        simp only []
+        cases hr2 : initJob hash s' sp true with
+        | mk s'' e2 =>
+          rw [hr2] at h2
+          cases e2 <;> exact h2
+  simp only [repairOne]
+  cases hl : alookup id (ensureRead s).session with
+  | some v =>
+    simp only []
+    have hv : hash v = id := hc0.1 _ _ (alookup_some_mem hl)
+    simp only [hv, if_true]
+    exact finish _ v hc0
+  | none =>
+    simp only []
+    cases hd : alookup id (ensureRead s).ws with
+    | none => exact hc0
+    | some d =>
+      simp only []
+      cases hsp : d.sp with
+      | absent => exact hc0
+      | garbage => exact hc0
+      | valid v =>
+        cases v with
+        | obj kvs =>
+          simp only []
+          by_cases hcorr : hash (JVal.obj kvs) = id
+          · simp only [hcorr, if_true]
+            exact finish _ _ (cacheInv_register hc0 hcorr)
+          · simp only [if_neg hcorr]
+            have hreg : CacheInv hash
+                { register (ensureRead s) id (JVal.obj kvs) with
+                  session := aerase id (register (ensureRead s) id (JVal.obj kvs)).session } :=
+              ⟨mapInv_erase_aset hc0.1 id _, hc0.2⟩
+            split
+            · exact hreg
+            · rename_i t ht
+              -- `t` is the state after the (successful) move: only `ws` differs
+              split at ht
+              · simp at ht
+              · split at ht
+                · split at ht
+                  · simp only [Option.some.injEq] at ht; subst ht
+                    exact finish _ _ ⟨hreg.1, hreg.2⟩
+                  · simp at ht
+                · simp only [Option.some.injEq] at ht; subst ht
+                  exact finish _ _ ⟨hreg.1, hreg.2⟩
+        | null => exact hc0
+        | bool _ => exact hc0
+        | int _ => exact hc0
+        | flt _ _ _ => exact hc0
+        | str _ => exact hc0
+        | arr _ => exact hc0
+
+theorem cacheInv_repairLoop (ids : List String) (s : St) (hc : CacheInv hash s) :
+    CacheInv hash (repairLoop hash s ids).1 := by
+  induction ids generalizing s with
+  | nil => exact hc
+  | cons id r ih =>
+    simp only [repairLoop]
+    exact ih _ (cacheInv_repairOne s id hc)
+
+/-- repair() keeps the cache invariant for ANY workspace content. -/
+theorem cacheInv_repair (s : St) (hc : CacheInv hash s) : CacheInv hash (repair hash s).1 :=
+  cacheInv_repairLoop _ _ (cacheInv_readCache hc)
+
+end
+end Signac.Cache
